@@ -70,6 +70,9 @@ func merge(dst, src *Result) {
 	for k, v := range src.FailureCount {
 		dst.FailureCount[k] += v
 	}
+	for k, v := range src.BucketCount {
+		dst.BucketCount[k] += v
+	}
 	dst.Exhaustive = dst.Exhaustive && src.Exhaustive
 	for _, n := range src.Notes {
 		dup := false
@@ -168,6 +171,7 @@ func RunParent(ch *Check, tier string, seed int64) int {
 		return nil
 	}
 	repDir := filepath.Join(VerifDir, "replays", ch.ID)
+	_ = os.RemoveAll(repDir)
 	_ = os.MkdirAll(repDir, 0o755)
 	sort.SliceStable(total.Failures, func(i, j int) bool { return total.Failures[i].Sig < total.Failures[j].Sig })
 	type verdict struct {
@@ -179,17 +183,22 @@ func RunParent(ch *Check, tier string, seed int64) int {
 	perSig := map[string]int{}
 	unrepro := int64(0)
 	for _, f := range total.Failures {
-		if perSig[f.Sig] >= 3 {
+		pk := f.Sig + "\x00" + f.Bucket
+		if perSig[pk] >= 2 || len(verdicts) >= 40 {
 			continue
 		}
-		perSig[f.Sig]++
+		perSig[pk]++
 		b, _ := json.MarshalIndent(f, "", " ")
 		h := sha1.Sum(b)
 		p := filepath.Join(repDir, hex.EncodeToString(h[:6])+".json")
 		_ = os.WriteFile(p, b, 0o644)
 		ok := true
 		if f.Kind != "crash" && ch.Replay != nil {
-			for i := 0; i < 5 && ok; i++ {
+			reps := 5
+			if f.Kind == "hang" {
+				reps = 2 // each confirmation of a hang costs its full 30 s timeout
+			}
+			for i := 0; i < reps && ok; i++ {
 				cmd := exec.Command(os.Args[0], "-id", ch.ID, "-tier", tier, "-replay", p)
 				done := make(chan error, 1)
 				if err := cmd.Start(); err != nil {
@@ -202,7 +211,7 @@ func RunParent(ch *Check, tier string, seed int64) int {
 					if err == nil {
 						ok = false // passed on replay: not reproducible
 					}
-				case <-time.After(90 * time.Second):
+				case <-time.After(45 * time.Second):
 					_ = cmd.Process.Kill()
 					<-done // a hang reproduces as a hang
 				}
@@ -211,6 +220,7 @@ func RunParent(ch *Check, tier string, seed int64) int {
 		if !ok {
 			unrepro++
 			_ = os.Remove(p)
+			fmt.Printf("NOTE property=%s a failing case did not reproduce in a fresh process (not reported): kind=%s bucket=%q case=%s observed=%s\n", ch.ID, f.Kind, f.Bucket, clip(string(f.Case), 400), clip(f.Observed, 200))
 		}
 		verdicts = append(verdicts, verdict{f: f, path: p, confirmed: ok})
 	}
@@ -237,7 +247,7 @@ func RunParent(ch *Check, tier string, seed int64) int {
 		}
 		violations++
 		fmt.Printf("VIOLATION property=%s replay=%s\n", ch.ID, v.path)
-		fmt.Printf("  kind=%s sig=%q expected=%s observed=%s\n", v.f.Kind, v.f.Sig, clip(v.f.Expected, 300), clip(v.f.Observed, 300))
+		fmt.Printf("  kind=%s sig=%q bucket=%q expected=%s observed=%s\n", v.f.Kind, v.f.Sig, v.f.Bucket, clip(v.f.Expected, 300), clip(v.f.Observed, 300))
 	}
 	// signatures that were counted but whose examples are all known are fine;
 	// anything counted under a signature that is not known and not printed yet
@@ -254,6 +264,7 @@ func RunParent(ch *Check, tier string, seed int64) int {
 		"unreproducible":      unrepro,
 		"workers":             n,
 		"failing_cases_by_signature": total.FailureCount,
+		"failing_cases_by_bucket":    total.BucketCount,
 	}
 	for k, v := range total.Stats {
 		cov[k] = v
